@@ -166,7 +166,7 @@ CONSTS = dict(NCtx=2, Valid={"v0", "v1", "v2"}, Invalid={"i1", "i2"}, MaxDepth=3
 def _cfg(variant, mode, maxlen, *, view, props=True, invs=("TypeOK", "NeverInvalid", "Balanced"), ncx=2):
     c = dict(CONSTS, NCtx=ncx, Variant=variant, EmitMode=mode, MaxLen=maxlen)
     return tlc.cfg_text(constants=c, invariants=invs,
-                        properties=("RestoresEntry", "InvalidInert") if props else (),
+                        properties=(props if isinstance(props, tuple) else ("RestoresEntry", "InvalidInert")) if props else (),
                         view="AbsView" if view else None)
 
 
@@ -185,7 +185,9 @@ def run(tier: str, seed: int, replay_path: str | None = None) -> int:
             o.violate("spec-invariant", {"violated": r.violated}, r.stdout_path)
         # 2. vacuity guards: the designs the property forbids are refuted, antecedents are reachable
         for variant in ("saved_at_init", "slot_at_enter"):
-            r = tlc.run("Descriptor", _cfg(variant, "none", 6, view=True), workdir=wd, keep_records=False)
+            # (only the property that is to be refuted: what TLC reports first among several violated ones is not fixed)
+            r = tlc.run("Descriptor", _cfg(variant, "none", 6, view=True, props=("RestoresEntry",), invs=()), workdir=wd,
+                        keep_records=False)
             o.add_tlc(r, f"refute {variant}", expect_violation=True)
             if "RestoresEntry" not in r.violated:
                 raise Machinery(f"RestoresEntry does not refute variant {variant}: vacuous property")
